@@ -1300,23 +1300,27 @@ def desugar_match(tree) -> int:
         out = node[1] if node[0] == "else" else [node[1]]
         return [_L(x, m) for x in pre + out]
 
-    for parent in ast.walk(tree):
-        for fld in ("body", "orelse", "finalbody"):
-            blk = getattr(parent, fld, None)
-            if not isinstance(blk, list):
-                continue
-            i = 0
-            while i < len(blk):
-                if isinstance(blk[i], ast.Match):
-                    try:
-                        new = rewrite(blk[i])
-                    except _NoDesugar:
-                        i += 1
+    for _ in range(6):  # nested matches surface after their parent has been rewritten
+        before = cnt
+        for parent in list(ast.walk(tree)):
+            for fld in ("body", "orelse", "finalbody"):
+                blk = getattr(parent, fld, None)
+                if not isinstance(blk, list):
+                    continue
+                i = 0
+                while i < len(blk):
+                    if isinstance(blk[i], ast.Match):
+                        try:
+                            new = rewrite(blk[i])
+                        except _NoDesugar:
+                            i += 1
+                            continue
+                        blk[i:i + 1] = new
+                        cnt += 1
                         continue
-                    blk[i:i + 1] = new
-                    cnt += 1
-                    continue  # re-visit (nested matches inside the new statements are reached by the outer walk)
-                i += 1
+                    i += 1
+        if cnt == before:
+            break
     return cnt
 
 
